@@ -328,12 +328,14 @@ def _digest_canary(res, run, mc):
             for ln in range(s["line_start"], s["line_end"] + 1):
                 if ln in can_lines:
                     hit.add(can_lines[ln])
+    rejected = [d for d in run["diags"] if classify(d) == "other"]
+    if rejected:
+        msg = "canary build rejected: " + rejected[0]["message"]
+        if msg not in res.undecided:
+            res.undecided.append(msg)
+        return
     for fn in set(can_lines.values()) - hit:
         res.canary_missing.append(fn)
-    for d in run["diags"]:
-        if classify(d) == "other":
-            res.undecided.append("canary build rejected: " + d["message"])
-            break
 
 
 # ---------------------------------------------------------------------------
